@@ -748,6 +748,66 @@ def zone_cases(ctx, zones, wlo, whi, pts, case, bad):
             if r.get("l") != r0["l"] or r.get("g") != r0["g"] or r.get("s") != r0["s"] or r.get("p") != r0["p"] or r.get("b") != str(t):
                 bad("tz-selection", input={"zone": name, "via": tag, "t": t}, observed=r, expected=r0)
 
+    one_argument_zone_forms(ctx, zones, bad)
+
+
+def one_argument_zone_forms(ctx, zones, bad):
+    """every function that takes its zone either as an argument or from --tz / TZ / ENV["TZ"]: the form WITHOUT the
+    zone argument, with the zone selected in each of the three ways, equals the form WITH the zone argument, over the
+    whole range of years and on texts with a fraction just below the next second (dropped, never rounded up).
+    Deterministic part first (fixed instants), then a few random ones; every zone, every way, every seed."""
+    fixed = [1500000000, 1499999999, 0, -1, -1869872216, 1510462800, 1521941400, -14831769600, 16725225600,
+             -62135596800 + 400 * 86400, 253402300799 - 400 * 86400, -9223372037, 9223372037]
+    ts = fixed + [ctx.rng.randint(-62135596800 + 400 * 86400, 253402300799 - 400 * 86400) for _ in range(4 if ctx.tier == "quick" else 100)] + \
+         [ctx.rng.randint(-2000000000, 4000000000) for _ in range(6 if ctx.tier == "quick" else 200)]
+    rows = [(str(t),) for t in ts]
+    NARROW = "(abs($t) < 9000000000)"
+    def exprs(z):
+        L = 'sec2localtime($t, 0, "%s")' % z
+        G = "sec2gmt($t)"
+        GF = "nsec2gmt($t * 1000000000 + 999999999, 9)"
+        LF = 'nsec2localtime($t * 1000000000 + 999999900, 9, "%s")' % z
+        pairs = [("sec2localtime", "sec2localtime($t)", L),
+                 ("sec2localtime-3", "sec2localtime($t, 3)", 'sec2localtime($t, 3, "%s")' % z),
+                 ("sec2localdate", "sec2localdate($t)", 'sec2localdate($t, "%s")' % z),
+                 ("localtime2sec", "localtime2sec(%s)" % L, 'localtime2sec(%s, "%s")' % (L, z)),
+                 ("gmt2localtime", "gmt2localtime(%s)" % G, 'gmt2localtime(%s, "%s")' % (G, z)),
+                 ("localtime2gmt", "localtime2gmt(%s)" % L, 'localtime2gmt(%s, "%s")' % (L, z)),
+                 ("gmt2localtime-is-sec2localtime", "gmt2localtime(%s)" % G, L),
+                 ("localtime2gmt-is-sec2gmt-of-localtime2sec", "localtime2gmt(%s)" % L, 'sec2gmt(localtime2sec(%s, "%s"))' % (L, z)),
+                 ("gmt2localtime-fraction", '(%s ? gmt2localtime(%s) : "skip")' % (NARROW, GF), '(%s ? %s : "skip")' % (NARROW, L)),
+                 ("gmt2localtime-fraction-2arg", '(%s ? gmt2localtime(%s, "%s") : "skip")' % (NARROW, GF, z), '(%s ? %s : "skip")' % (NARROW, L)),
+                 ("localtime2gmt-fraction", '(%s ? localtime2gmt(%s) : "skip")' % (NARROW, LF), '(%s ? localtime2gmt(%s, "%s") : "skip")' % (NARROW, L, z)),
+                 ("localtime2gmt-fraction-2arg", '(%s ? localtime2gmt(%s, "%s") : "skip")' % (NARROW, LF, z), '(%s ? localtime2gmt(%s, "%s") : "skip")' % (NARROW, L, z)),
+                 ("nsec2localtime", '(%s ? nsec2localtime($t * 1000000000, 6) : "skip")' % NARROW, '(%s ? nsec2localtime($t * 1000000000, 6, "%s") : "skip")' % (NARROW, z)),
+                 ("nsec2localdate", '(%s ? nsec2localdate($t * 1000000000) : "skip")' % NARROW, '(%s ? nsec2localdate($t * 1000000000, "%s") : "skip")' % (NARROW, z)),
+                 ("localtime2nsec", '(%s ? localtime2nsec(%s) : "skip")' % (NARROW, L), '(%s ? localtime2nsec(%s, "%s") : "skip")' % (NARROW, L, z))]
+        return pairs
+    jobs, tags = [], []
+    for z in zones:
+        name = z["name"]
+        pairs = exprs(name)
+        flat = [e for _, a, b in pairs for e in (a, b)]
+        outs = ["c%d" % i for i in range(len(flat))]
+        other = "Asia/Tokyo" if name != "Asia/Tokyo" else "America/New_York"
+        for via, prefix, kw in (("--tz", "", {"args": ["--tz", name]}),
+                                ("TZ", "", {"env": {"TZ": name}}),
+                                ('ENV["TZ"]', 'ENV["TZ"] = "%s"; ' % name, {"env": {"TZ": other}}),
+                                ("--tz over TZ", "", {"args": ["--tz", name], "env": {"TZ": other}})):
+            jobs.append(((["t"], rows, prefix + P(flat), outs), kw))
+            tags.append((name, via, pairs))
+    results = par(ctx, jobs)
+    for (name, via, pairs), res in zip(tags, results):
+        for (tstr,), o in zip(rows, res):
+            ctx.count(("one-argument-zone-form", name, via, tstr))
+            for i, (label, a, b) in enumerate(pairs):
+                got, want = o["c%d" % (2 * i)], o["c%d" % (2 * i + 1)]
+                if got != want or got == ERR:
+                    bad("zone-from-context-equals-zone-argument", input={"t": int(tstr), "zone": name, "zone_selected_via": via, "law": label, "without_zone_argument": a, "reference": b},
+                        observed=got, expected=want,
+                        how="mlr %s-n put 'end{%sprint %s}'  with $t = %s" % ("--tz %s " % name if via.startswith("--tz") else "", 'ENV["TZ"]="%s"; ' % name if via.startswith("ENV") else "", a, tstr))
+                    break
+
 
 UNITS = ["d", "m", "y", "ym", "md", "yd"]
 
